@@ -398,3 +398,34 @@ def chain_random(rng, count):
         mult = rng.choice(["1", "1", "1/2", "2", "0"])
         yield f"CHAIN {pstr(P)} mult={mult} var={rng.choice([0, 0, 1])} SEG={codec.show_segs(segs)}"
         made += 1
+
+
+def resolveall_random(rng, count, lattice_frac=0.5):
+    import codec
+    made = 0
+    while made < count:
+        if rng.random() >= lattice_frac:
+            P = rand_params(rng)
+            R = make_reference(rng, rng.randrange(15, 60), rng.choice([3000, 9000]), rng.choice([200, 500, 2000]))
+            Q, off, _ = make_query(rng, R)
+            rev = rng.randrange(2)
+            if rev:
+                Q = mirror(Q)
+            peaks = ladder(rng, off)
+            segs = _real_segments(P, R, Q, rev, peaks, R[-1] + 1000)
+        else:
+            nr = rng.randrange(4, 11)
+            R = sorted(rng.sample(range(0, 30), nr))
+            Q = sorted(rng.sample(range(0, 18), rng.randrange(3, 8)))
+            Q = [q - Q[0] for q in Q]
+            rev = rng.randrange(2)
+            P = {"sp": 10, "dp": rng.choice([1, 2, 4]), "su": rng.choice([-1, -2, -3]), "md": rng.choice([1, 2]),
+                 "ms": rng.choice([10, 15, 20]), "bs": rng.choice([5, 12, 30])}
+            peaks = rng.sample(range(-4, 16), rng.randrange(2, 5))
+            segs = _real_segments(P, R, Q, rev, peaks, 31)
+        if len(segs) < 2:
+            continue
+        segs = segs[:10]
+        mult = rng.choice(["1", "1", "1/2", "0"])
+        yield f"RESOLVEALL {pstr(P)} mult={mult} var={rng.choice([0, 0, 1])} SEG={codec.show_segs(segs)}"
+        made += 1
